@@ -323,3 +323,339 @@ def transfer_sites(ctx, h, skey):
             ent["vault_types"] = {v for (ad, v) in sd.variants if ad.endswith("BankVaultType")}
         out.append(ent)
     return out
+
+
+# ---------------------------------------------------------------------------------------------
+# canonical expression trees (strings) of a value, resolved through temporaries, `?`, into(), casts
+COMMUTATIVE = {"add", "mul", "checked_add", "checked_mul", "min", "max", "eq", "ne", "saturating_add", "saturating_mul", "wrapping_add", "wrapping_mul", "bitand", "bitor"}
+_BINNAMES = {"AddWithOverflow": "add", "SubWithOverflow": "sub", "MulWithOverflow": "mul", "Add": "add", "Sub": "sub", "Mul": "mul", "Div": "div", "Rem": "rem",
+             "Lt": "lt", "Le": "le", "Gt": "gt", "Ge": "ge", "Eq": "eq", "Ne": "ne", "BitAnd": "bitand", "BitOr": "bitor", "BitXor": "bitxor", "Shl": "shl", "Shr": "shr"}
+
+
+def expr_tree(prog, f, o, depth=0, seen=None, inline=0):
+    """String form of the expression computing operand o in f.  Locals with several definitions become
+    phi(a|b); params are p<N>[.field...]; named constants their int value or name; calls name(args)."""
+    seen = seen or frozenset()
+    if depth > 40:
+        return "..."
+    k = o.get("k")
+    if k is not None:
+        v = k.get("v") or {}
+        if "int" in v:
+            return str(v["int"])
+        if k.get("promoted") is not None and k.get("item") is not None:
+            pf = prog.promoted.get((f.dinfo(k["item"])["key"], k["promoted"]))
+            if pf is not None and depth < 30:
+                return _local_tree(prog, pf, 0, [], depth + 1, frozenset(), inline)
+            return "promoted"
+        if k.get("item") is not None:
+            return f.dinfo(k["item"])["name"]
+        if "static" in v:
+            return v["static"].split("::")[-1]
+        return "const"
+    p = op_place(o)
+    if p is None:
+        return "?"
+    flds = [e["n"] if e.get("n") else str(e["f"]) for e in p.get("p", []) if isinstance(e, dict) and "f" in e and not _wrapper_owner(e.get("o"))]
+    l = p["l"]
+    if 1 <= l <= f.argc and not _assigned(f, l):
+        return "p%d%s" % (l, "".join("." + x for x in flds))
+    return _local_tree(prog, f, l, flds, depth, seen, inline)
+
+
+def _wrapper_owner(o):
+    return bool(o) and o.split("::")[-1] in ("Option", "Result", "ControlFlow", "Some", "Ok", "Err", "Continue", "Break")
+
+
+def _sfx(flds):
+    return "".join("." + x for x in flds)
+
+
+def _assigned(f, l):
+    return bool(f.local_defs().get(l))
+
+
+def _local_tree(prog, f, l, flds, depth, seen, inline):
+    defs = f.local_defs().get(l) or []
+    if not defs:
+        return "p%d%s" % (l, "".join("." + x for x in flds)) if 1 <= l <= f.argc else "undef"
+    if l in seen:
+        return "loop"
+    seen = seen | {l}
+    outs = []
+    for (bi, si) in defs:
+        if si == "T":
+            t = f.blocks[bi]["t"]
+            if t["k"] != "call":
+                outs.append("?")
+                continue
+            ci = f.dinfo(t["res"]) if t.get("res") is not None else (f.dinfo(t["raw"]) if "raw" in t else None)
+            nm = ci["name"] if ci else "indirect"
+            if nm == "from_residual":
+                continue
+            if nm in A.SAME_PATH_CALLS and t["args"]:
+                t_ = expr_tree(prog, f, t["args"][0], depth + 1, seen, inline)
+                outs.append(t_ + (_sfx(flds) if flds else ""))
+                continue
+            if nm in A.UNWRAP_CALLS and t["args"]:
+                outs.append(expr_tree(prog, f, t["args"][0], depth + 1, seen, inline))
+                continue
+            args = [expr_tree(prog, f, a, depth + 1, seen, inline) for a in t["args"]]
+            if nm in COMMUTATIVE:
+                args = sorted(args)
+            outs.append("%s(%s)%s" % (nm, ",".join(args), _sfx(flds)))
+            continue
+        s = f.blocks[bi]["s"][si]
+        if s["d"].get("p"):
+            # partial (field) write into the local: only relevant when we are reading that field
+            wf = [e["n"] if e.get("n") else str(e["f"]) for e in s["d"]["p"] if isinstance(e, dict) and "f" in e]
+            if flds[:len(wf)] != wf:
+                continue
+        outs.append(rvalue_tree(prog, f, s["v"], flds, depth, seen, inline))
+    outs = sorted(set(outs))
+    if not outs:
+        return "undef"
+    if len(outs) == 1:
+        return outs[0]
+    return "phi(%s)" % "|".join(outs)
+
+
+def rvalue_tree(prog, f, v, flds=(), depth=0, seen=frozenset(), inline=0):
+    flds = list(flds)
+    r = v["r"]
+    if r in ("use", "cast", "repeat"):
+        return expr_tree(prog, f, v["a"][0], depth + 1, seen, inline) + _sfx(flds)
+    if r in ("ref", "rawptr"):
+        return expr_tree(prog, f, {"c": v["pl"]}, depth + 1, seen, inline) + _sfx(flds)
+    if r == "bin":
+        nm = _BINNAMES.get(v["op"], v["op"].lower())
+        args = [expr_tree(prog, f, a, depth + 1, seen, inline) for a in v["a"]]
+        if nm in COMMUTATIVE:
+            args = sorted(args)
+        return "%s(%s)" % (nm, ",".join(args))
+    if r == "un":
+        return "%s(%s)" % (v["op"].lower(), expr_tree(prog, f, v["a"][0], depth + 1, seen, inline))
+    if r == "agg":
+        if flds and v.get("ak") == "adt" and flds[0] in (v.get("fields") or []):
+            return expr_tree(prog, f, v["a"][v["fields"].index(flds[0])], depth + 1, seen, inline) + _sfx(flds[1:])
+        if flds and v.get("ak") == "tuple" and flds[0].isdigit() and int(flds[0]) < len(v["a"]):
+            return expr_tree(prog, f, v["a"][int(flds[0])], depth + 1, seen, inline) + _sfx(flds[1:])
+        nm = (v.get("adt") or v.get("ak") or "agg").split("::")[-1] + ("::" + v["variant"] if v.get("variant") else "")
+        return "%s{%s}" % (nm, ",".join(expr_tree(prog, f, a, depth + 1, seen, inline) for a in v["a"]))
+    if r == "discr":
+        return "discr(%s)" % expr_tree(prog, f, {"c": v["pl"]}, depth + 1, seen, inline)
+    return r
+
+
+def ret_tree(prog, f):
+    return _local_tree(prog, f, 0, [], 0, frozenset(), 0)
+
+
+def split_call(s):
+    """'name(a,b)' -> (name, [a, b]) splitting at top-level commas; None if s is not a call form"""
+    if not s.endswith(")") or "(" not in s:
+        return None
+    i = s.index("(")
+    name = s[:i]
+    if not name or any(ch in name for ch in "{}|,"):
+        return None
+    depth = 0
+    args, cur = [], ""
+    for ch in s[i + 1:-1]:
+        if ch in "({":
+            depth += 1
+        elif ch in ")}":
+            depth -= 1
+            if depth < 0:
+                return None
+        if ch == "," and depth == 0:
+            args.append(cur)
+            cur = ""
+        else:
+            cur += ch
+    if depth != 0:
+        return None
+    if cur or args:
+        args.append(cur)
+    return name, args
+
+
+_NEGREL = {"lt": "ge", "le": "gt", "gt": "le", "ge": "lt", "eq": "ne", "ne": "eq"}
+
+
+def norm_cond(tree, truth):
+    """canonical string for 'tree evaluates to truth': relations over lt/le/eq/ne only"""
+    sc = split_call(tree)
+    if sc and sc[0] == "not" and len(sc[1]) == 1:
+        return norm_cond(sc[1][0], not truth)
+    if sc and sc[0] in _NEGREL and len(sc[1]) == 2:
+        rel, (a, b) = sc[0], sc[1]
+        if not truth:
+            rel = _NEGREL[rel]
+        if rel == "gt":
+            rel, a, b = "lt", b, a
+        elif rel == "ge":
+            rel, a, b = "le", b, a
+        if rel in ("eq", "ne"):
+            a, b = sorted((a, b))
+        return "%s(%s,%s)" % (rel, a, b)
+    return tree if truth else "not(%s)" % tree
+
+
+def switch_cond(prog, f, sw, arm):
+    """canonical condition string for 'control leaves switch block sw through arm'"""
+    t = f.blocks[sw]["t"]
+    tree = expr_tree(prog, f, t["on"])
+    p = op_place(t["on"])
+    isbool = p is not None and not p.get("p") and f.local_ty(p["l"])["s"] == "bool"
+    arms = [int(a) for a, _ in t["arms"]]
+    if isbool:
+        if arm == "else":
+            if arms != [0]:
+                return "?"
+            return norm_cond(tree, True)
+        return norm_cond(tree, int(arm) != 0)
+    if arm == "else":
+        return "%s notin %s" % (tree, sorted(arms))
+    return "%s == %s" % (tree, int(arm))
+
+
+def error_conditions(prog, f, targets=None):
+    """canonical conditions under which f takes an edge into a block from which the given error blocks
+    (default: all error blocks) are inevitable: [(cond, switch block)]"""
+    targets = A.error_blocks(f) if targets is None else targets
+    out = []
+    for (sw, arm, tgt) in A.guard_edges(f, targets):
+        c = switch_cond(prog, f, sw, arm)
+        ex = _expand_materialised_bool(prog, f, sw, arm) if (c.startswith("phi(") or c.startswith("not(phi(")) else None
+        if ex:
+            out.extend((x, sw) for x in ex)
+        else:
+            out.append((c, sw))
+    return out
+
+
+def _expand_materialised_bool(prog, f, sw, arm):
+    """`let ok = a && b; if !ok {err}` keeps `ok` in a local with one definition per short-circuit arm.  When none of the
+    definitions is loop-carried, 'ok has the erroring truth value' is the disjunction of: the branch condition leading to a
+    constant definition with that value, and (expression definition has that value)."""
+    t = f.blocks[sw]["t"]
+    p = op_place(t["on"])
+    if p is None or p.get("p") or f.local_ty(p["l"])["s"] != "bool":
+        return None
+    arms = [int(a) for a, _ in t["arms"]]
+    truth = True if (arm == "else" and arms == [0]) else (int(arm) != 0 if arm != "else" else None)
+    if truth is None:
+        return None
+    l = p["l"]
+    neg = False
+    for _ in range(6):
+        d = A.single_def(f, l)
+        if d is None or d[1] == "T":
+            break
+        v = f.blocks[d[0]]["s"][d[1]]["v"]
+        q = op_place(v["a"][0]) if v.get("a") else None
+        if v["r"] == "use" and q is not None and not q.get("p"):
+            l = q["l"]
+        elif v["r"] == "un" and v["op"] == "Not" and q is not None and not q.get("p"):
+            l = q["l"]
+            neg = not neg
+        else:
+            break
+    if neg:
+        truth = not truth
+    defs = f.local_defs().get(l) or []
+    if len(defs) < 2:
+        return None
+    from_sw = f.reachable(start=sw)
+    out = []
+    for (bi, si) in defs:
+        if bi in from_sw:
+            return None          # loop-carried flag: no expansion
+        if si == "T":
+            return None
+        s_ = f.blocks[bi]["s"][si]
+        if s_["d"].get("p"):
+            return None
+        tree = rvalue_tree(prog, f, s_["v"])
+        if tree in ("0", "1"):
+            if (tree == "1") == truth:
+                dc = dominating_conds(prog, f, bi, limit=1)
+                if not dc:
+                    return None
+                out.append(dc[0])
+        else:
+            out.append(norm_cond(tree, truth))
+    return out
+
+
+def bool_paths(prog, f, limit=256):
+    """for a small loop-free bool function: [(sorted conds, return tree)] for every entry->return path"""
+    out = []
+
+    def retval_on(path_blocks):
+        val = None
+        for b in path_blocks:
+            for s in f.blocks[b]["s"]:
+                if s.get("d") and s["d"]["l"] == 0 and not s["d"].get("p") and s.get("v"):
+                    val = rvalue_tree(prog, f, s["v"])
+            t = f.blocks[b]["t"]
+            if t["k"] == "call" and t["dest"]["l"] == 0 and not t["dest"].get("p"):
+                ci = f.dinfo(t["res"]) if t.get("res") is not None else (f.dinfo(t["raw"]) if "raw" in t else None)
+                args = [expr_tree(prog, f, a) for a in t["args"]]
+                nm = ci["name"] if ci else "indirect"
+                val = "%s(%s)" % (nm, ",".join(sorted(args) if nm in COMMUTATIVE else args))
+        return val
+
+    def walk(b, conds, blocks, seen):
+        if len(out) >= limit or b in seen:
+            return
+        t = f.blocks[b]["t"]
+        blocks = blocks + [b]
+        if t["k"] == "return":
+            out.append((sorted(conds), retval_on(blocks)))
+            return
+        if t["k"] == "switch":
+            for a, tgt in t["arms"]:
+                walk(tgt, conds + [switch_cond(prog, f, b, int(a))], blocks, seen | {b})
+            walk(t["else"], conds + [switch_cond(prog, f, b, "else")], blocks, seen | {b})
+            return
+        nx = term_succ_normal(t)
+        for n in nx:
+            walk(n, conds, blocks, seen | {b})
+    walk(0, [], [], frozenset())
+    return out
+
+
+def term_succ_normal(t):
+    k = t["k"]
+    if k == "goto":
+        return [t["to"]]
+    if k in ("call", "drop", "assert", "falseedge", "yield"):
+        return [t["to"]] if t.get("to") is not None else []
+    return []
+
+
+def dominating_conds(prog, f, block, limit=40):
+    """canonical conditions (strings) that hold on every path from entry to `block`"""
+    out = []
+    idom = f.dominators()
+    x = block
+    chain = []
+    while x is not None and x in idom and idom[x] is not None and idom[x] != x:
+        x = idom[x]
+        chain.append(x)
+    for s in chain:
+        t = f.blocks[s]["t"]
+        if t["k"] != "switch":
+            continue
+        live = []
+        edges = [(int(v), b) for v, b in t["arms"]] + [("else", t["else"])]
+        for (v, b) in edges:
+            if block in A.reach_without(f, removed_blocks={s}, start=b):
+                live.append((v, b))
+        if len(live) == 1:
+            out.append(switch_cond(prog, f, s, live[0][0]))
+        if len(out) >= limit:
+            break
+    return out
